@@ -401,6 +401,10 @@ def check(model, rep):
         if i.rule == 'C10.effects':
             (rep.holds if i.status == 'HOLDS' else (rep.violation if i.status == 'VIOLATION' else rep.cannot))(
                 'C20.links', i.construct, i.detail, i.loc)
+        # "a worm gear whose mating was flagged self-locking": the flag of a REFUSED declaration must not stay behind
+        if i.rule == 'C10.atomic':
+            (rep.holds if i.status == 'HOLDS' else (rep.violation if i.status == 'VIOLATION' else rep.cannot))(
+                'C20.links.atomic', i.construct, i.detail, i.loc)
     check_frozen(model, rep)
     rep.require('C20.walk', 2)
     rep.require('C20.rejects', 3)
